@@ -37,6 +37,7 @@ type c18Case struct {
 	Field   string `json:"field"`
 	Payload string `json:"payload"`
 	PIndex  int    `json:"payload_index"`
+	Shape   int    `json:"shape"` // how the payload is embedded / which session flavour carries it (route specific)
 }
 
 var c18Routes = map[string][]string{
@@ -79,7 +80,29 @@ func c18Gen(t *rapid.T) c18Case {
 	} else {
 		c.Payload = c18Payloads[c.PIndex]
 	}
+	c.Shape = rapid.IntRange(0, 5).Draw(t, "shape")
 	return c
+}
+
+// c18Dest embeds the payload in a login destination that the local-destination
+// filter lets through: after a path, in the query, in the fragment, and behind
+// path / fragment text that net/url refuses to parse (bad percent escapes).
+func c18Dest(c c18Case) string {
+	p := c.Payload
+	switch c.Shape {
+	case 0:
+		return "/x" + p
+	case 1:
+		return "/x?" + p
+	case 2:
+		return "/%zz" + p
+	case 3:
+		return "/x#%zz" + p
+	case 4:
+		return "/x#" + p
+	default:
+		return "/x%" + p
+	}
 }
 
 var c18Worlds = map[string]*vWorld{}
@@ -150,7 +173,7 @@ func c18Inspect(res *vResult, c c18Case, body []byte) {
 
 func c18Check(c c18Case) *vResult {
 	res := &vResult{}
-	res.Desc = vJoin(c.Route, c.Field, fmt.Sprint(c.PIndex))
+	res.Desc = vJoin(c.Route, c.Field, fmt.Sprint(c.PIndex), fmt.Sprint(c.Shape))
 	res.label("route:" + c.Route)
 	p := c.Payload
 	rawq := ""
@@ -169,12 +192,9 @@ func c18Check(c c18Case) *vResult {
 		case "user":
 			form.Set("user", p)
 		case "login_destination":
-			form.Set("login_destination", "/x"+p)
+			form.Set("login_destination", c18Dest(c))
 		case "password":
 			form.Set("password", p)
-		}
-		if c.Field == "login_destination" && c.PIndex%2 == 0 {
-			form.Set("login_destination", "/x?"+p)
 		}
 		req := vFormRequest("POST", "/api/v0/login"+rawq, form)
 		req.Header.Set("Accept", html1)
@@ -183,10 +203,7 @@ func c18Check(c c18Case) *vResult {
 		w = c18World("2fa")
 		form := url.Values{"username": {vUserAlice}, "password": {vPwAlice}}
 		if c.Field == "login_destination" {
-			form.Set("login_destination", "/x"+p)
-			if c.PIndex%2 == 0 {
-				form.Set("login_destination", "/x?"+p)
-			}
+			form.Set("login_destination", c18Dest(c))
 		}
 		req := vFormRequest("POST", "/api/v0/login"+rawq, form)
 		req.Header.Set("Accept", html1)
@@ -244,7 +261,12 @@ func c18Check(c c18Case) *vResult {
 		req.URL.Path = "/profile/" + p
 		req.Header.Set("Accept", html1)
 		req.Header.Set("User-Agent", "Mozilla/5.0 Chrome/120.0")
-		w.applyCred(req, vCred{Kind: "cookie", Bits: AuthTypePassword | AuthTypeU2F}, "root-admin")
+		// with and without the U2F factor: without it the page is read-only and says so
+		bits := AuthTypePassword | AuthTypeU2F
+		if c.Shape%2 == 1 {
+			bits = AuthTypePassword
+		}
+		w.applyCred(req, vCred{Kind: "cookie", Bits: bits}, "root-admin")
 		resp = vServe(w.state.profileHandler, req)
 	case "profile-own":
 		profile, _, _, _ := w.state.LoadUserProfile(vUserAlice)
@@ -323,7 +345,7 @@ func c03RoleFormFor(identity string) url.Values {
 
 func TestVerifC18Markup(t *testing.T) {
 	vRunRapid(t,
-		"rapid: 26 canary payloads + generated metacharacter mixes x request-controlled field x 13 HTML-producing route situations (failed / successful login, 401 login and 2FA pages for authorize / CLI-token routes, landing page, own / other profile with stored token names, users list, CLI token page, error paths); non-trivial = response is HTML and reflects the canary; distinct = (route, field, payload)",
+		"rapid: 26 canary payloads + generated metacharacter mixes x request-controlled field x 13 HTML-producing route situations (failed / successful login, 401 login and 2FA pages for authorize / CLI-token routes, landing page, own / other profile with stored token names, users list, CLI token page, error paths); non-trivial = response is HTML and reflects the canary; distinct = (route, field, payload, embedding / session shape)",
 		c18Gen, c18Check)
 }
 
